@@ -418,6 +418,7 @@ func scenario(h *vh.H, ci int, r vh.R) {
 		return chain[b-1].tip
 	}
 	var trace []string
+	seenBlocks := map[types.HeaderHash]bool{}
 	for b, p := range chain {
 		parent := parentOf(b)
 		// hostile interludes before the valid block b
@@ -503,9 +504,10 @@ func scenario(h *vh.H, ci int, r vh.R) {
 			case "valid sibling":
 				// another valid child of the same parent (other slot or other tickets): accepted, then the main chain goes on from the parent
 				sib, st := w.produce(r, parent, parent.tau+1+r.IntN(3), r.IntN(K+1))
-				if st.hash == p.tip.hash {
-					continue
+				if st.hash == p.tip.hash || seenBlocks[st.hash] {
+					continue // the very same block (same slot, same tickets): importing a block twice is not what is judged here
 				}
+				seenBlocks[st.hash] = true
 				bad, expectReject = sib, false
 			case "re-import of an earlier block":
 				if b < 2 {
